@@ -116,7 +116,11 @@ ElemCopy::startElement(StylesheetExecutionContext&  executionContext) const
             false,
             getLocator());
 
-        if(XalanNode::ELEMENT_NODE == nodeType)
+        // If only text nodes can be created (inside xsl:attribute, xsl:comment
+        // or xsl:processing-instruction), the element was not started, and it
+        // is ignored together with its content.
+        if(XalanNode::ELEMENT_NODE == nodeType &&
+           executionContext.getCopyTextNodesOnly() == false)
         {
             ElemUse::startElement(executionContext);
 
@@ -162,7 +166,8 @@ ElemCopy::endElement(StylesheetExecutionContext& executionContext) const
 
     if(XalanNode::DOCUMENT_NODE != nodeType)
     {
-        if(XalanNode::ELEMENT_NODE == nodeType)
+        if(XalanNode::ELEMENT_NODE == nodeType &&
+           executionContext.getCopyTextNodesOnly() == false)
         {
             endExecuteChildren(executionContext);
 
@@ -201,7 +206,8 @@ ElemCopy::execute(StylesheetExecutionContext&   executionContext) const
             false,
             getLocator());
 
-        if(XalanNode::ELEMENT_NODE == nodeType)
+        if(XalanNode::ELEMENT_NODE == nodeType &&
+           executionContext.getCopyTextNodesOnly() == false)
         {
             ElemUse::execute(executionContext);
 
